@@ -1,16 +1,16 @@
 SPECIFICATION Spec
 CONSTANTS
-  MaxLen = 4
+  MaxLen = 5
   CapC = 40
   Eps = 2
-  Heights = {4, 5, 7, 8}
+  Heights = {4, 5, 7, 8, 9}
   ForkH = 8
   LimitH = 5
   Lim0 = 3
   Lim1 = 4
   Ns = {1, 2, 3, 4}
   Classes = {"s", "h", "n", "o"}
-  MaxBig = 1
+  MaxBig = 2
   MaxBl = 1
   MaxEx = 0
   MaxGrp = 2
